@@ -74,7 +74,7 @@ func TestVerifC14Wire(t *testing.T) {
 					}
 					if m.Long {
 						seen[m.Total] = true
-						k.Nontrivial(fmt.Sprintf("%d/%d/%d/%d", tx.min, tx.max, n, m.Total))
+						k.Nontrivial(caseID) // not the drawn chunk count: the count of distinct cases is a function of the seed
 						if n%499 == 0 && ci < 3 {
 							sizes := []int{}
 							for _, w := range m.Wire {
@@ -265,7 +265,7 @@ func vfC14RunWorld(t *testing.T, k *vfKit, caseID string, w vfC14World) {
 		case 1:
 			n = 1100 + r.Intn(401)
 		}
-		m := s.tx.write(tag, vfC14Payload(uint32(tag), n, vfC14FirstByte(r, long)), caseID)
+		m := s.tx.writeSeeded(r, tag, vfC14Payload(uint32(tag), n, vfC14FirstByte(r, long)), caseID)
 		if m != nil {
 			rx.register(m)
 			s.written++
